@@ -74,6 +74,9 @@ pub enum Ev {
     RegisterResource { ctx: u8, name: String, text: String },
     RegisterOp { ctx: u8, name: String, ctor: u8 },
     Op { ctx: u8, def: String },
+    /// as `Op`, but the call is made from a freshly spawned OS thread (joined at once):
+    /// handles must be unique and contexts must behave the same whichever thread calls
+    OpOnThread { ctx: u8, def: String },
     /// use operator #op through context `ctx` (which may not be its owner)
     Apply { ctx: u8, op: u16, inv: bool },
     Steps { ctx: u8, op: u16 },
@@ -371,7 +374,7 @@ impl Engine for RegSim {
                 "macro invocations carry no arguments (argument passing is C04's subject), so that a macro's value is its body's value",
                 "the sequential cache model is exact: a grid lookup is served from the cache if the name is cached, else from the first root holding the file",
             ],
-            required_probes: &["shadow_builtin_after_creation", "reregistration_after_creation", "foreign_handle", "forged_handle", "file_macro_from_resource_file", "file_macro_from_register", "register_item_at_eof_without_terminator", "register_item_first_in_file", "register_cr_only", "runtime_beats_file", "second_root_used", "broken_file_falls_through", "grid_replaced_while_cached", "clear_then_new_version", "refusing_constructor", "recursive_macro", "op_after_clear_old_handle_alive"],
+            required_probes: &["shadow_builtin_after_creation", "reregistration_after_creation", "foreign_handle", "forged_handle", "file_macro_from_resource_file", "file_macro_from_register", "register_item_at_eof_without_terminator", "register_item_first_in_file", "register_cr_only", "runtime_beats_file", "second_root_used", "broken_file_falls_through", "grid_replaced_while_cached", "clear_then_new_version", "refusing_constructor", "recursive_macro", "op_after_clear_old_handle_alive", "op_from_another_os_thread"],
             exhaustive: false,
         }
     }
@@ -405,7 +408,11 @@ impl Engine for RegSim {
                 }
                 1 => events.push(Ev::RegisterOp { ctx, name: rng.pick(OP_NAMES).to_string(), ctor: rng.weighted(&[45, 40, 15]) as u8 }),
                 2 => {
-                    events.push(Ev::Op { ctx, def: gen_def(&mut rng) });
+                    if rng.chance(0.06) {
+                        events.push(Ev::OpOnThread { ctx, def: gen_def(&mut rng) });
+                    } else {
+                        events.push(Ev::Op { ctx, def: gen_def(&mut rng) });
+                    }
                     n_ops += 1;
                 }
                 3 if n_ops > 0 => events.push(Ev::Apply { ctx: rng.below(n_ctx) as u8, op: rng.below(n_ops as usize) as u16, inv: rng.chance(0.4) }),
@@ -468,7 +475,7 @@ impl Engine for RegSim {
             let mut map: Vec<Option<u16>> = Vec::new();
             let mut next = 0u16;
             for (i, ev) in plan.events.iter().enumerate() {
-                if let Ev::Op { .. } = ev {
+                if let Ev::Op { .. } | Ev::OpOnThread { .. } = ev {
                     if i >= s && i < e {
                         map.push(None);
                     } else {
@@ -520,6 +527,14 @@ impl Engine for RegSim {
             let mut p = plan.clone();
             p.ctxs.truncate(1);
             out.push(p);
+        }
+        // the same call from the main thread
+        for (i, ev) in plan.events.iter().enumerate() {
+            if let Ev::OpOnThread { ctx, def } = ev {
+                let mut p = plan.clone();
+                p.events[i] = Ev::Op { ctx: *ctx, def: def.clone() };
+                out.push(p);
+            }
         }
         // simpler definitions: single steps
         for (i, ev) in plan.events.iter().enumerate() {
@@ -588,17 +603,37 @@ impl Engine for RegSim {
                     changed_world = true;
                     rec.logf(|| format!("e{} ctx{} register_op {} ctor{}", k, c, name, ctor % 3));
                 }
-                Ev::Op { ctx, def } => {
+                Ev::Op { ctx, def } | Ev::OpOnThread { ctx, def } => {
                     let c = *ctx as usize % n_ctx;
-                    sig.str("O");
+                    let on_thread = matches!(ev, Ev::OpOnThread { .. });
+                    sig.str(if on_thread { "T" } else { "O" });
+                    if on_thread {
+                        rec.probe("op_from_another_os_thread");
+                    }
                     if changed_world {
                         nontrivial = true;
                     }
                     // probes about which path the resolution will take
                     self.resolution_probes(rec, &world, c, def);
                     let cache_before = world.cache.clone();
+                    let model_steps = world.step_count(c, def, 0);
                     let model = eval_with_opaque(&mut world, c, def);
-                    let made = catch(|| ctxs[c].get_mut().op(def));
+                    let made = if on_thread {
+                        // contexts are Send: hand the context to another OS thread for this call
+                        let ctx_ref = &mut ctxs[c];
+                        catch(move || {
+                            std::thread::scope(|s| {
+                                s.spawn(move || match ctx_ref {
+                                    AnyCtx::M(m) => m.op(def),
+                                    AnyCtx::P(p) => p.op(def),
+                                })
+                                .join()
+                                .unwrap_or_else(|_| panic!("op() panicked on the other thread"))
+                            })
+                        })
+                    } else {
+                        catch(|| ctxs[c].get_mut().op(def))
+                    };
                     let made = match made {
                         Err(p) => {
                             rec.violate("I-safe", &format!("op() panics: {}", p), format!("event {} ctx{} op('{}'): {}", k, c, def, p));
@@ -618,6 +653,16 @@ impl Engine for RegSim {
                                         "I-res",
                                         "a definition does not resolve to what the documented resolution order gives",
                                         format!("event {} ctx{} (kind {}) op('{}'): {}; run-time resources {:?}, user ops {:?}", k, c, plan.ctxs.get(c).copied().unwrap_or(2), def, why, world.ctxs[c].resources.keys().collect::<Vec<_>>(), world.ctxs[c].user_ops),
+                                    );
+                                    break;
+                                }
+                            }
+                            if let (Some(want), Ok(got)) = (model_steps, ctxs[c].get().steps(h).map(|s| s.len())) {
+                                if want != got {
+                                    rec.violate(
+                                        "I-res",
+                                        "the step list of a new operator is not that of the definition it resolves to",
+                                        format!("event {} ctx{} op('{}'): {} steps reported, the resolved definition has {}", k, c, def, got, want),
                                     );
                                     break;
                                 }
